@@ -31,6 +31,7 @@ from __future__ import annotations
 import importlib
 import itertools
 import os
+import time
 
 from .. import refmodel as R
 from .. import ref_c19 as F
@@ -99,11 +100,11 @@ def variants(Perm, basis, nvar):
     return out
 
 
-def check_fast(part, basis, nvar):
+def check_fast(part, basis, nvar, twice=True):
     """All fast observers on one basis (sorted tuple of tuples).  Returns True when the case is
     non-trivial (some fast strategy applies and some does not, by the reference)."""
     Perm, classes, find, IEP, _ = _lib()
-    case = {"basis": basis, "kind": "fast", "nvar": nvar}
+    case = {"basis": basis, "kind": "fast", "nvar": nvar, "twice": twice}
     exp = F.expected(basis)
     has1 = (0,) in basis
     known = []
@@ -114,7 +115,7 @@ def check_fast(part, basis, nvar):
             part.violation("applies", case, {"strategy": name, "constructor": r})
             continue
         obj = r[1]
-        for rnd in (1, 2):
+        for rnd in ((1, 2) if twice else (1,)):
             r = _call(obj.applies)
             if r[0] == "exc":
                 if r[1] == "AssertionError" and has1 and name in F.STRIP_TO_EMPTY:
@@ -199,26 +200,17 @@ def schmerl_trotter_finite(basis):
     return any(cnt[k] == 0 and cnt[k + 1] == 0 for k in range(4, 8))
 
 
-def check_slow(part, basis):
-    """Slow observers on one basis.  Returns (verdict or None, nontrivial)."""
+def check_slow(part, basis, direct=True, separate=True):
+    """Slow observers on one basis: find_strategies(b, True) and (b, False) always; with `separate`
+    also FinitelyManySimplesStrategy(b).applies() on its own; with `direct` the verdict is compared
+    with the class test PinWords.has_finite_simples(b).  Returns the slow verdict or None."""
     Perm, classes, find, _, PinWords = _lib()
-    case = {"basis": basis, "kind": "slow"}
     exp = F.expected(basis)
     has1 = (0,) in basis
+    if has1:
+        separate = True      # find_strategies raises before it reaches the slow strategy (finding)
+    case = {"basis": basis, "kind": "slow", "direct": direct, "separate": separate}
     B = [Perm(p) for p in basis]
-    direct = _call(lambda: PinWords.has_finite_simples(list(B)))
-    got = _call(lambda: classes[F.FMS](tuple(reversed(B))).applies())
-    verdict = None
-    if got[0] == "exc" or direct[0] == "exc" or got[1] != direct[1] or not isinstance(got[1], bool):
-        part.violation("fms-classtest", case, {"applies": got, "has_finite_simples": direct})
-    else:
-        verdict = got[1]
-    forced = schmerl_trotter_finite(basis)
-    if forced:
-        part.bump("schmerl_trotter_forced")
-        if got[0] == "ok" and got[1] is not True:
-            part.violation("fms-schmerl-trotter", case,
-                           {"applies": got, "simple_avoiders_by_length": simple_avoider_counts(basis)})
     full = _call(lambda: _names(find(list(B), True)))
     fast = _call(lambda: _names(find(list(B), False)))
     known = False
@@ -230,6 +222,26 @@ def check_slow(part, basis):
                 part.violation("find-slow", case, {"call": nm, "raised": r})
     if known:
         part.violation("find-slow", case, {"AssertionError_in": "find_strategies"}, sig=SIG)
+    verdict = None
+    if separate:
+        got = _call(lambda: classes[F.FMS](tuple(reversed(B))).applies())
+        if got[0] == "exc" or not isinstance(got[1], bool):
+            part.violation("fms-applies", case, {"applies": got})
+        else:
+            verdict = got[1]
+    elif full[0] == "ok":
+        verdict = F.FMS in full[1]
+    if direct:
+        d = _call(lambda: PinWords.has_finite_simples(list(B)))
+        if d[0] == "exc" or (verdict is not None and d[1] != verdict):
+            part.violation("fms-classtest", case, {"strategy_reported": verdict,
+                                                   "has_finite_simples": d})
+    if schmerl_trotter_finite(basis):
+        part.bump("schmerl_trotter_forced")
+        if verdict is False:
+            part.violation("fms-schmerl-trotter", case,
+                           {"strategy_reported": verdict,
+                            "simple_avoiders_by_length": simple_avoider_counts(basis)})
     if full[0] == "ok":
         names = full[1]
         bad = [n for n in names if n not in F.ALL]
@@ -242,8 +254,7 @@ def check_slow(part, basis):
         if fast[0] == "ok" and sorted(set(fast[1])) != sorted(set(names) - set(F.SLOW)):
             part.violation("quick-vs-slow", case, {"long_running_True": names,
                                                    "long_running_False": fast[1]})
-    vals = [v for v in exp.values() if v != F.UNDEF] + ([verdict] if verdict is not None else [])
-    return verdict, (True in vals) and (False in vals)
+    return verdict
 
 
 # --------------------------------------------------------------------------------------------
@@ -297,11 +308,14 @@ def build_pools(quick):
                 for e in R.perms(n):
                     drop.append(canon(rest + (e,)))
     POOLS["drop"] = fresh(drop)
-    # slow pools
+    # slow pool: entries (basis, direct class test?, separate applies()?)
+    reps = {R.sym_class_rep(b) for b in small}
     if quick:
-        reps3 = sorted({R.sym_class_rep(b) for b in small if len(b) == 3}, key=_key)
-        POOLS["slow"] = [b for b in small if len(b) <= 2] + [canon(b) for b in reps3]
+        slow = [(b, True, True) for b in small if len(b) <= 2]
+        slow += [(b, True, False) for b in small
+                 if len(b) == 3 and b in reps and sum(1 for p in b if len(p) == 4) <= 1]
     else:
+        slow = [(b, b in reps, b in reps) for b in small]
         extra = []
         s2 = set(small)
         for name in F.CORE:
@@ -312,38 +326,44 @@ def build_pools(quick):
                         s2.add(b)
                         extra.append(b)
         extra.sort(key=_key)
-        POOLS["slow"] = small + extra
+        slow += [(b, True, False) for b in extra]
+    POOLS["slow"] = slow
 
 
 def shard_fast(shard):
-    pool, lo, hi, nvar = shard
+    pool, lo, hi, nvar, twice = shard
+    t0 = time.process_time()
     part = Partial()
     for b in POOLS[pool][lo:hi]:
-        nt = check_fast(part, b, nvar)
+        nt = check_fast(part, b, nvar, twice)
         part.add(1, 1 if nt else 0)
         if nt:
             part.sample({"pool": pool, "basis": b,
                          "reference_report": sorted(k for k, v in F.expected(b).items() if v is True)},
                         cap=1)
-    return part
+    return part, time.process_time() - t0
 
 
 def shard_slow(shard):
     pool, lo, hi, work = shard
+    t0 = time.process_time()
     os.makedirs(work, exist_ok=True)
     os.chdir(work)              # the automaton code may write dfa_db/ relative to the cwd
     part = Partial()
     verdicts = []
-    for b in POOLS[pool][lo:hi]:
-        v, nt = check_slow(part, b)
+    for b, direct, separate in POOLS[pool][lo:hi]:
+        v = check_slow(part, b, direct, separate)
         verdicts.append((b, v))
-        # the fast observers already counted this basis as a case; count the slow evaluation,
-        # non-trivial only through the slow verdict being defined and the report being mixed
-        part.add(1, 0)
+        # the fast sub-checks already count this basis as a case; here: one slow evaluation,
+        # non-trivial when the slow strategy is reported but some fast strategy is not, or
+        # the other way round
+        fastvals = [x for x in F.expected(b).values() if x != F.UNDEF]
+        part.add(1, 1 if (v is not None and (not v) in fastvals) else 0)
         if v is not None:
-            part.outcomes.add(("fms", v))
             part.bump("slow_verdict_%s" % v)
-    return part, verdicts
+            if direct:
+                part.bump("slow_verdict_compared_with_class_test")
+    return part, (verdicts, time.process_time() - t0)
 
 
 def _shards(pool, per, *extra):
@@ -361,8 +381,9 @@ def run(ctx, only=None):
     ctx.rule = ("one case = one basis (a set of permutations, each set enumerated once over all pools) "
                 "with every fast strategy's applies(), the class tests and find_strategies in several "
                 "orders compared with the restated hypotheses; non-trivial = the reference reports at "
-                "least one fast strategy and rejects at least one for that basis; slow evaluations "
-                "(automaton built) are counted as evaluations only")
+                "least one fast strategy and rejects at least one for that basis; a slow evaluation "
+                "(basis, slow observers; each once) is non-trivial when the slow verdict differs from "
+                "some fast strategy's verdict")
     ctx.assumptions = [
         "reference mc/ref_c19.py restates each hypothesis from its definition; the tables of required "
         "patterns and the shape attached to each corollary are taken from the strategy classes "
@@ -375,18 +396,18 @@ def run(ctx, only=None):
     build_pools(quick)
     if want("small"):
         e0 = ctx.evals
-        ctx.pmap(shard_fast, _shards("small", 48, 4))
+        res = ctx.pmap(shard_fast, _shards("small", 48, 4, True))
         ctx.bounds["small"] = ("all %d sets of <=3 patterns of length 1..4; 9 fast strategies x 2 calls, "
                                "class test on 8 images, find_strategies(.,False) in 4 orders/containers"
                                % len(POOLS["small"]))
         ctx.section("small", bases=len(POOLS["small"]), evaluations=ctx.evals - e0,
-                    nontrivial=ctx.nontrivial)
+                    nontrivial=ctx.nontrivial, cpu_s=round(sum(res), 1))
     if want("ext"):
         e0, n0 = ctx.evals, ctx.nontrivial
         shards = []
         for pool in ("ext1", "ext2", "drop"):
-            shards += _shards(pool, 64, 2)
-        ctx.pmap(shard_fast, shards)
+            shards += _shards(pool, 64, 2, False)
+        res = ctx.pmap(shard_fast, shards)
         ctx.bounds["ext"] = {
             "ext1": "8 core strategies: every symmetric image of required patterns + {e}, |e|<=%d: %d new bases"
                     % (5 if quick else 6, len(POOLS["ext1"])),
@@ -394,37 +415,47 @@ def run(ctx, only=None):
                     % ("" if quick else ", every symmetric image", len(POOLS["ext2"])),
             "drop": "required patterns minus one + {e}, |e|<=%d: %d new bases"
                     % (4 if quick else 5, len(POOLS["drop"])),
+            "observers": "9 fast strategies' applies(), class test on 8 images, "
+                         "find_strategies(.,False) in 2 orders",
         }
         ctx.section("ext", bases=sum(len(POOLS[p]) for p in ("ext1", "ext2", "drop")),
-                    evaluations=ctx.evals - e0, nontrivial=ctx.nontrivial - n0)
+                    evaluations=ctx.evals - e0, nontrivial=ctx.nontrivial - n0,
+                    cpu_s=round(sum(res), 1))
     if want("slow"):
-        e0 = ctx.evals
+        e0, n0 = ctx.evals, ctx.nontrivial
         build_simples()
-        per = 6 if quick else 12
-        shards = [s + (os.path.join(ctx.work, "slow%d" % i),)
-                  for i, s in enumerate(_shards("slow", per))]
+        per = 4 if quick else 8
+        shards = [sh + (os.path.join(ctx.work, "slow%d" % i),)
+                  for i, sh in enumerate(_shards("slow", per))]
         res = ctx.pmap(shard_slow, shards)
         # equal verdicts inside every symmetry orbit
         orbits = {}
-        for lst in res:
-            for b, v in lst or []:
+        for lst, _ in res:
+            for b, v in lst:
                 orbits.setdefault(R.sym_class_rep(b), []).append((b, v))
-        multi = 0
+        multi = pairs = 0
         for rep, lst in sorted(orbits.items(), key=lambda kv: _key(kv[0])):
             defined = [(b, v) for b, v in lst if v is not None]
             if len(defined) > 1:
                 multi += 1
             for b, v in defined[1:]:
+                pairs += 1
                 if v != defined[0][1]:
                     ctx.violation("fms-symmetry", {"basis": defined[0][0], "other": b, "kind": "orbit"},
                                   {"verdicts": [defined[0][1], v]})
         ctx.bump("orbits_with_several_images_compared", multi)
+        ctx.bump("image_pairs_compared", pairs)
         ctx.bounds["slow"] = ("%d bases: %s" % (
             len(POOLS["slow"]),
-            "all of Bases(2,4) + one representative per symmetry orbit of the 3-element bases of Bases(3,4)"
-            if quick else "all of Bases(3,4) + required patterns + {e}, |e|<=5, for the 8 core strategies"))
+            "all of Bases(2,4) (class test + separate applies()) + one representative per symmetry "
+            "orbit of the 3-element bases of Bases(3,4) with at most one pattern of length 4 (class test)"
+            if quick else
+            "all of Bases(3,4) (class test + separate applies() on one representative per orbit, the "
+            "other images tied to it by orbit equality) + required patterns + {e}, |e|<=5, for the 8 "
+            "core strategies (class test)"))
         ctx.section("slow", bases=len(POOLS["slow"]), evaluations=ctx.evals - e0,
-                    orbits=len(orbits), orbits_compared=multi)
+                    nontrivial=ctx.nontrivial - n0, orbits=len(orbits), orbits_compared=multi,
+                    cpu_s=round(sum(c for _, c in res), 1))
 
 
 # --------------------------------------------------------------------------------------------
@@ -436,15 +467,15 @@ def replay(ctx, rec):
     basis = canon(case["basis"])
     kind = case.get("kind")
     if kind == "fast":
-        check_fast(ctx, basis, int(case.get("nvar", 4)))
+        check_fast(ctx, basis, int(case.get("nvar", 4)), bool(case.get("twice", True)))
     elif kind == "slow":
         build_simples()
-        check_slow(ctx, basis)
+        check_slow(ctx, basis, bool(case.get("direct", True)), bool(case.get("separate", True)))
     elif kind == "orbit":
         build_simples()
         other = canon(case["other"])
-        v1, _ = check_slow(ctx, basis)
-        v2, _ = check_slow(ctx, other)
+        v1 = check_slow(ctx, basis, False, True)
+        v2 = check_slow(ctx, other, False, True)
         if v1 is not None and v2 is not None and v1 != v2:
             ctx.violation("fms-symmetry", case, {"verdicts": [v1, v2]})
     else:
